@@ -648,16 +648,15 @@ def rule_optflow3(ctx: Ctx) -> RuleResult:
     # glob symbols: the characters process_path treats as pattern magic are the ones the --model help documents
     pp = ctx.prog.func(CLI, "process_path")
     tested = set()
-    for n in walk_no_nested(pp.node):
-        if isinstance(n, ast.Lambda):
-            for c in ast.walk(n.body):
-                if isinstance(c, ast.Compare) and isinstance(c.ops[0], (ast.In, ast.NotIn)) and isinstance(c.left, ast.Constant) \
-                        and isinstance(c.left.value, str):
-                    tested |= set(c.left.value)
-                if isinstance(c, ast.Call) and norm(c.func) in ("any", "set") :
-                    for k in ast.walk(c):
-                        if isinstance(k, ast.Constant) and isinstance(k.value, str) and len(k.value) <= 4:
-                            tested |= set(k.value)
+    for c in ast.walk(pp.node):
+        # `"*" in part` / `"?" not in part` on a path component, in a lambda, a comprehension or a plain statement
+        if isinstance(c, ast.Compare) and isinstance(c.ops[0], (ast.In, ast.NotIn)) and isinstance(c.left, ast.Constant) \
+                and isinstance(c.left.value, str) and 0 < len(c.left.value) <= 2 and isinstance(c.comparators[0], ast.Name):
+            tested |= set(c.left.value)
+        if isinstance(c, ast.Call) and norm(c.func) in ("any", "set"):
+            for k in ast.walk(c):
+                if isinstance(k, ast.Constant) and isinstance(k.value, str) and 0 < len(k.value) <= 4:
+                    tested |= set(k.value)
     helptext = ""
     mo = opts.get("model")
     if mo is not None:
